@@ -19,7 +19,7 @@ func init() {
 			"and the union over network-facing servers must equal the documented surface {vipnode_connect, update, peer, client, host, ping; pool_account, addNode, withdraw, status; vipnode_whitelist} — registrations on in-process Local servers are listed but unrestricted; " +
 			"(register-filter) in Server.Register the registry store is unreachable without passing 'no allow-list given' or the allow-list hit, the allow-list is built from the onlyMethods argument whenever it is non-empty, and the name is prefix + lower-cased first rune + rest; " +
 			"(dispatch) in Server.Handle the method is invoked only past the registry hit for the request's method name and the success edge of parsePositionalArguments(req.Params, m.ArgTypes), with method-not-found / invalid-params codes on the other edges; " +
-			"(arity) parsePositionalArguments refuses too many arguments, undecodable ones and missing non-pointer ones, and Method.Call re-checks the count.",
+			"(arity) parsePositionalArguments refuses too many arguments, undecodable ones and missing non-pointer ones, and Method.Call re-checks the count. Round 5: no exposed method declares a pointer parameter.",
 		NotDecided: []string{"not decided: JSON-to-Go decoding leniency per parameter type (e.g. null for a value parameter, extra object fields)"},
 		Exhaustive: true,
 	}
@@ -27,7 +27,7 @@ func init() {
 		Run: runC17,
 		Explanation: "Static ownership / lockset rules over the codecs: (no-readahead-loss) a json.Decoder built on a receiver-held stream must either be kept in the receiver or hand its Buffered() remainder to a receiver field that the next decoder reads first — a per-call decoder that is dropped loses every message that arrived coalesced with the previous one; " +
 			"(one-encode) the stream codec writes a message with exactly one Encode (one Write) of that message; (single-writer) in the gorilla codec every write on the connection holds muWrite and every read holds muRead; " +
-			"(framing) the gobwas codec advances to the next frame before each read and flushes after each successful write; (shipped-codec) the binaries import the gorilla codec only. Round 2: (http-once) the HTTP stub builds a constant POST and sets no replay-enabling or non-constant header; (framing) a successful Discard() on the same reader precedes every NextFrame.",
+			"(framing) the gobwas codec advances to the next frame before each read and flushes after each successful write; (shipped-codec) the binaries import the gorilla codec only. Round 2: (http-once) the HTTP stub builds a constant POST and sets no replay-enabling or non-constant header; (framing) a successful Discard() on the same reader precedes every NextFrame. Round 5: (payload-verbatim) no interface{} member in the message types.",
 		NotDecided: []string{"not decided: exactly-once/in-order delivery over arbitrary chunkings (needs execution); interleaving of concurrent writers on the gobwas and plain stream codecs, which the binaries do not use for concurrent writers"},
 	}
 }
@@ -618,6 +618,30 @@ func checkArity(p *an.Prog, r *an.Run) {
 		}
 	}
 	r.Check(len(bad) == 0, "arity", an.FuncName(mc), mc.Pos(), "len(args) == len(ArgTypes) before the reflective call", "%s", strings.Join(bad, "; "))
+
+	// ---- declared parameters are required: the positional parser (borrowed from go-ethereum) treats a pointer-typed
+	// parameter as optional — a call that leaves it out is not answered with invalid-params, the method runs with nil.
+	// No method exposed on a network-facing registration declares a pointer parameter.
+	bad = nil
+	nH := 0
+	for _, h := range HandlerMethods(p, Registrations(p)) {
+		if isTestDoublePkg(h) || p.IsTestFunc(h) {
+			continue
+		}
+		nH++
+		params := h.Signature.Params()
+		for i := 0; i < params.Len(); i++ {
+			t := params.At(i).Type()
+			if isContext(t) {
+				continue
+			}
+			if _, isPtr := t.Underlying().(*types.Pointer); isPtr {
+				bad = append(bad, an.FuncName(h)+" declares the pointer parameter "+params.At(i).Name()+" "+types.TypeString(t, func(pk *types.Package) string { return pk.Name() })+": a call with that parameter left out is accepted and the method runs with nil instead of being refused with invalid-params")
+			}
+		}
+	}
+	r.Floor("exposed-methods", nH, 10)
+	r.Check(len(bad) == 0, "arity", "exposed-methods", token.NoPos, "no exposed method has an optional (pointer) parameter", "%s", strings.Join(dedup(bad), "; "))
 }
 
 // ---------------------------------------------------------------------------
@@ -781,6 +805,49 @@ func runC17(p *an.Prog, r *an.Run, tier string) {
 		r.Check(ok, "one-encode", an.FuncName(wm), wm.Pos(), "one Encode (one Write) of the message, error returned", "jsonCodec.WriteMessage does not write the message with exactly one Encode of it (or drops the error): messages could be written partially or twice")
 	} else {
 		r.Undec("one-encode", "jsonCodec.WriteMessage", token.NoPos, "anchor not found")
+	}
+
+	// ---- payload-verbatim: every codec reads and writes jsonrpc2.Message; whatever JSON a message carries beyond its
+	// envelope (params, result, error data, the id) crosses this process as the bytes that arrived. A member typed
+	// interface{} is decoded into maps and float64 instead and re-encoded from those: integers above 2^53 (wei amounts,
+	// nanosecond nonces) come out rounded. No member of the message types holds an empty interface.
+	if mt := p.Named("jsonrpc2", "Message"); mt != nil {
+		var pb []string
+		seenT := map[types.Type]bool{}
+		nF := 0
+		var walk func(t types.Type, where string)
+		walk = func(t types.Type, where string) {
+			if seenT[t] {
+				return
+			}
+			seenT[t] = true
+			switch x := t.(type) {
+			case *types.Named:
+				if x.Obj().Pkg() != nil && strings.HasPrefix(x.Obj().Pkg().Path(), an.Module) {
+					walk(x.Underlying(), x.Obj().Name())
+				}
+			case *types.Pointer:
+				walk(x.Elem(), where)
+			case *types.Slice:
+				walk(x.Elem(), where)
+			case *types.Map:
+				walk(x.Elem(), where)
+			case *types.Interface:
+				if x.NumMethods() == 0 {
+					pb = append(pb, where+" holds an interface{}: JSON carried there is decoded through float64 and maps and is not forwarded as it arrived")
+				}
+			case *types.Struct:
+				for i := 0; i < x.NumFields(); i++ {
+					nF++
+					walk(x.Field(i).Type(), where+"."+x.Field(i).Name())
+				}
+			}
+		}
+		walk(mt, "Message")
+		r.Floor("message-fields", nF, 8)
+		r.Check(len(pb) == 0, "payload-verbatim", "jsonrpc2.Message", mt.Obj().Pos(), "the message types carry foreign JSON as raw bytes", "%s", strings.Join(dedup(pb), "; "))
+	} else {
+		r.Undec("payload-verbatim", "jsonrpc2.Message", token.NoPos, "type not found")
 	}
 
 	// ---- single-writer (gorilla)
